@@ -127,6 +127,8 @@ impl Prop for Conventions {
         cfg.max_items = 2 + t.below(10);
         cfg.docs = false;
         cfg.backends = false;
+        cfg.static_vfuncs = true;
+        cfg.vft_num = 2;
         let (prog, _, _) = gen_prog(t, cfg);
         Case { prog, w }
     }
@@ -186,6 +188,7 @@ impl Prop for UnknownNames {
     }
     fn judge(&self, c: &BadCcCase) -> Outcome {
         let f = Func {
+            sty: 0,
             vis: true,
             name: "f".into(),
             doc: vec![],
